@@ -190,7 +190,7 @@ def run(ctx):
 
 MANIFEST = {
     "category": "other",
-    "technique": "MIR dominance / edge-guard / provenance / who-may-call rules on publish, ack and replay paths",
+    "technique": "MIR dominance / edge-guard / provenance / who-may-call rules on publish, ack and replay paths; insert and topic association inside one begin/commit bracket",
     "text": "Partial: decides the ordering facts that at-least-once replay rests on (persist before process/announce; ack only after successful processing; replay = diff of persisted cursor). The enumeration of crash points and what SQLite has on disk at each is not decidable statically and is not claimed.",
     "note": "Trusted: rustc MIR, driver, rule engine; store transaction semantics (C10).",
 }
